@@ -17,8 +17,11 @@ occurring in the pool, plus a separate malformed stream (edits of valid texts, b
 
 import fnmatch
 import re
+import sys
 
+from . import tables
 from .common import Check, Err, Raw, cN, clist, copt, cpair, cstr, cval, impl_call
+from .tables import TableError
 
 IMPORTS = ("From Coq Require Import List NArith ZArith Bool.\n"
            "From Verif Require Import Base.Val C01.Model_C01 C04.Model_C04 C44.Model_C44 C44.Spec_C44.")
@@ -36,7 +39,40 @@ SLOTS = ["0", "5", "1.2", "0a", "5.15"]
 SUBSLOTS = [None, None, "1.60", "1.60.0", "5", "2"]
 REPOS = ["gentoo", "other", "gentoo-x"]
 OPS = ["<", "<=", "=", ">=", ">", "~"]
-ALPHA = "ab*-/:!<>=~[],.+_1 \t\n"
+ALPHA = "ab*-/:!<>=~[],.+_1 \t\n" + "\u00e9\u00df\u4e2d\u2014\u00d7\u00a0"      # + word / non-word / space non-ASCII
+# Python's str.isspace() code points, as Model_C44.is_space lists them
+SPACE_RANGES = [(9, 13), (28, 32), (133, 133), (160, 160), (5760, 5760), (8192, 8202), (8232, 8233),
+                (8239, 8239), (8287, 8287), (12288, 12288)]
+
+
+def _ranges(pred, lo, hi):
+    out, start = [], None
+    for c in range(lo, hi + 1):
+        if pred(c):
+            if start is None:
+                start = c
+        elif start is not None:
+            out.append((start, c - 1))
+            start = None
+    if start is not None:
+        out.append((start, hi))
+    return out
+
+
+def gen_tables():
+    """Tables_C44.v: the non-ASCII code points the running Python's `re` takes for \\w in a str pattern
+    (valid_globbing is such a pattern); fails closed when str.isspace() is not the set the model lists."""
+    w = re.compile(r"\w")
+    if _ranges(lambda c: chr(c).isspace(), 0, 0x10FFFF) != SPACE_RANGES:
+        raise TableError("str.isspace() of this Python differs from Model_C44.is_space")
+    r = _ranges(lambda c: w.match(chr(c)) is not None, 128, 0x10FFFF)
+    txt = ("(* GENERATED from the running Python (re / unicodedata) by harness/c44.py on every run — do not edit. *)\n"
+           "From Coq Require Import List NArith.\nImport ListNotations.\n"
+           "(* code points >= 128 matched by \\w in a str pattern *)\n"
+           "Definition uni_word_ranges : list (N * N) := ["
+           + "; ".join(f"({a}, {b})" for a, b in r) + "]%N.\n")
+    return {"Tables_C44.v": txt}
+
 
 BOUNDARY = ["*", "", " ", "/", "a/", "/a", "*/", "/*", "*/*", "**", "a**", "a*b*", "*a*", "a/b/c", "a*/b/c",
             "a/*/c", ":0", "::gentoo", "*:", "*:/", "*:*", "*:*/*", "*:0/", "*:/1.60", "*::", "a:1:2",
@@ -46,7 +82,9 @@ BOUNDARY = ["*", "", " ", "/", "a/", "/a", "*/", "/*", "*/*", "**", "a**", "a*b*
             "dev-qt/qtcore:5*", "*/*:5*/*", "*/*::gentoo", "a[x]", "a[x,-y]", "alsa*[x]", "dev-libs/boost:0/1.60*",
             "=dev-libs/boost-1*", "=dev-libs/boo*-1*", "dev-libs/boost:*", "dev-libs/boost:=",
             ">=*/alsa-*-1.1.7:0", ">=*/alsa-*-1.1.7::gentoo", ">=*/alsa-*-1.1.7:5/5::gentoo", "<=dev-*/*-2.0",
-            "~media-*/alsa*-1.1.7", "=*/*-1", ">*/*-1:0a"]
+            "~media-*/alsa*-1.1.7", "=*/*-1", ">*/*-1:0a",
+            "\u00e9*", "\u4e2d*/*", "a\u2014*", "*\u00d7", "\u00a0dev-*/*\u2028", "dev-*/*:\u00e9*", "caf\u00e9/b", "a/b:*::r[x]",
+            "=dev-libs/boost-1*:*::gentoo"]
 
 
 # --------------------------------------------------------------------------- packages
@@ -248,7 +286,10 @@ UNMODELLED = re.compile(r"\[[^\]]*[?=]")
 
 
 def modelled(t):
-    return all(ord(c) < 128 for c in t) and not UNMODELLED.search(t)
+    """outside the model: transitive USE deps, and non-ASCII digits (C03's parser model reads \\d /
+    isdigit as ASCII digits)"""
+    return (not any(ord(c) > 127 and (c.isdigit() or c.isdecimal() or c.isnumeric()) for c in t)
+            and not UNMODELLED.search(t))
 
 
 # --------------------------------------------------------------------------- reference (B')
@@ -287,6 +328,14 @@ def cls_atom_slotstar_use(text):
     except Exception:  # noqa: BLE001
         return False
     return True
+
+
+def _plain_atom(text):
+    from pkgcore.ebuild.atom import atom
+    try:
+        return type(atom(text.strip())) is atom
+    except Exception:  # noqa: BLE001
+        return False
 
 
 def cls_globver_drops(text):
@@ -374,6 +423,10 @@ def main(chk: Check):
              ":slot[/subslot] and ::repo (globbed or exact), plus a malformed stream (1-2 character edits, "
              "boundary strings); non-trivial = the text is accepted and selects a non-empty proper subset "
              "of the pool; glob stream: (pattern, value) pairs over the glob alphabet incl. , + . and newline")
+    try:
+        tables.regenerate(sys.modules[__name__])
+    except TableError as e:
+        chk.violation("table", {"what": "cannot regenerate Tables_C44.v", "error": str(e)}, no_input=True)
     ok = chk.build(["C44/Prop_C44.vo"])
     if ok:
         chk.check_assumptions("C44/Prop_C44.v")
@@ -437,6 +490,8 @@ def main(chk: Check):
         res = run_text(pr.parse_match, pool, t)
         cases.append((cs(t), Raw(cres(res))))
         chk.count("query:" + stream)
+        if any(ord(c) > 127 for c in t):
+            forms["non-ascii"] = forms.get("non-ascii", 0) + 1
         key = (fields or {}).get("form", stream) + (":err" if isinstance(res, Err) else "")
         forms[key] = forms.get(key, 0) + 1
         if not isinstance(res, Err):
@@ -456,6 +511,8 @@ def main(chk: Check):
         elif fields is not None and "!" not in t:
             prop_bad.append({"what": "a well-formed query text was rejected", "text": t, "fields": fields,
                              "error": res.kind})
+        elif "!" not in t and _plain_atom(t):
+            prop_bad.append({"what": "a valid atom text was rejected", "text": t, "error": res.kind})
     chk.cov["forms"] = forms
     for x in cases[len(BOUNDARY)::max(1, len(cases) // 5)][:5]:
         chk.sample({"stream": "query", "input": x[0], "impl": x[1].term[:300]})
@@ -463,10 +520,10 @@ def main(chk: Check):
     lap("impl-query")
     # ---- glob stream
     gl_cases, gl_bad = [], []
-    galpha = "ab-+.,_1*"
+    galpha = "ab-+.,_1*" + "\u00e9\u4e2d\u2014"
     vals = sorted({f[k] for f in pool_f for k in ("cat", "pkg", "slot", "subslot")})
     for _ in range(budget(500, 6000)):
-        v = rng.choice(vals) if rng.random() < 0.6 else "".join(rng.choice("ab-+.,_1") for _ in range(rng.randrange(6)))
+        v = rng.choice(vals) if rng.random() < 0.6 else "".join(rng.choice("ab-+.,_1\u00e9\u4e2d") for _ in range(rng.randrange(6)))
         if rng.random() < 0.7:
             p = globs_of(rng, v) if v else "*"
         else:
@@ -500,12 +557,18 @@ def main(chk: Check):
             fq = ex.submit(chk.coq_eval, "query", IMPORTS, "str", cases,
                            ["where_ (fun i r => negb (struct_eqb (run_case pool i) r)) cases",
                             "where_ (fun i r => negb (struct_eqb (run_case_orig pool i) r)) cases",
-                            "where_ (fun i r => negb (spec_case_ok pool i r)) cases"], 450, pool_def)
+                            "where_ (fun i r => negb (spec_case_ok pool i r)) cases",
+                            "where_ atom_unshaped cases"], 450, pool_def)
             fg = ex.submit(chk.coq_eval, "glob", IMPORTS, "str * str", gl_cases,
                            ["mismatches run_glob cases", "where_ (fun i r => negb (spec_glob_ok i r)) cases"], 600)
             r, rg = fq.result(), fg.result()
         if r is not None:
-            fixed_bad, orig_bad, spec_bad = (set(x) for x in r)
+            fixed_bad, orig_bad, spec_bad, unshaped = (set(x) for x in r)
+            for i in sorted(unshaped)[:3]:
+                chk.violation("correspondence",
+                              {"what": "a valid atom text outside the class head_rejects does not read as an atom "
+                                       "(premise atom_shaped of atom_accepted_partial)", "input": texts[i][0]},
+                              no_input=True)
             for i in sorted(fixed_bad):
                 t = texts[i][0]
                 if i not in orig_bad and cls_globver_drops(t) and "globver-drops-slot-repo" in chk.known:
